@@ -96,8 +96,10 @@ type Lemma struct {
 type GhostVar struct{ Name, Type string }
 
 type Immutable struct {
+	Prop  string
 	Types []string
 	After []string
+	Pkgs  []string // packages (relative to the module) whose functions are scanned
 	Line  int
 }
 
@@ -245,8 +247,19 @@ func ParseContractFile(path, pkgPath string) (*PkgContracts, error) {
 			}
 			cur = nil
 		case "immutable":
-			i := strings.Index(rest, " after ")
+			// immutable Cxx: T1, T2 after F1, F2 in pkg1, pkg2
 			im := Immutable{Line: it.line}
+			if j := strings.Index(rest, ":"); j > 0 && j < 6 {
+				im.Prop = strings.TrimSpace(rest[:j])
+				rest = strings.TrimSpace(rest[j+1:])
+			}
+			if j := strings.Index(rest, " in "); j >= 0 {
+				for _, f := range strings.Split(rest[j+4:], ",") {
+					im.Pkgs = append(im.Pkgs, strings.TrimSpace(f))
+				}
+				rest = rest[:j]
+			}
+			i := strings.Index(rest, " after ")
 			ts := rest
 			if i >= 0 {
 				ts = rest[:i]
